@@ -222,6 +222,12 @@ def _writers(opts):
             got = _n_sequence(kind, text)
             if got != want:
                 return f"{label}: records n={got}, the reference pipeline gives n={want}"
+            if kind == "csv":  # one header row per run of records of one type: a header repeated inside a run is a data row to every CSV parser
+                ref = reference(intact, opts)
+                runs = sum(1 for i_, r_ in enumerate(ref) if i_ == 0 or (r_[0], r_[1]) != (ref[i_ - 1][0], ref[i_ - 1][1]))
+                rows = list(csv.reader(io.StringIO(text)))
+                if len(rows) != len(ref) + runs:
+                    return f"{label}: {len(rows)} CSV rows for {len(ref)} records in {runs} run(s) of one type (a standard parser sees {len(rows) - runs} data rows)"
     return None
 
 
